@@ -161,6 +161,9 @@ func RelayerRandom(outFile string, seed int64, n, depth int, period, timeout int
 	defer w.Close()
 	for run := 1; run <= n; run++ {
 		if err := relayerHistory(w, seed*100003+int64(run), run, depth, period, timeout); err != nil {
+			if _, halted := err.(*HaltError); halted {
+				continue // logged as a `halt` event, which no specification action explains
+			}
 			return w.N, fmt.Errorf("run %d: %w", run, err)
 		}
 	}
